@@ -103,7 +103,7 @@ func genC16Harness(u *PkgUnit, minL, maxMW int) error {
 	fmt.Fprintf(&sb, `	w := newVerifRec()
 	u := &url.URL{Path: path}
 	vrt.SetQuery(u, query)
-	r := &http.Request{Method: method, URL: u, Header: hdr}
+	r := &http.Request{Method: method, URL: u, Header: hdr, Body: http.NoBody}
 	vrt.Enter()
 	api.ServeHTTP(w, r)
 	_ = corsRan
@@ -197,7 +197,7 @@ func VerifC13Serve() {
 	w := newVerifRec()
 	u := &url.URL{Path: path}
 	vrt.SetQuery(u, query)
-	r := &http.Request{Method: method, URL: u, Header: hdr}
+	r := &http.Request{Method: method, URL: u, Header: hdr, Body: http.NoBody}
 	vrt.Enter()
 	api.ServeHTTP(w, r)
 	if path == %q {
